@@ -9,6 +9,9 @@ EXTRA = {
     'C08': [('Props/C08/All.lean', 'Chess.Props.C08')],
     'C04': [('Props/C04/Keys.lean', 'Chess.Props.C04')],
     'C02': [('Props/C02/Basic.lean', 'Chess.Props.C02')],
+    'C10': [('Props/C10/Basic.lean', 'Chess.Props.C10')],
+    'C15': [('Props/C15/Basic.lean', 'Chess.Props.C15')],
+    'C12': [('Props/C12/Basic.lean', 'Chess.Props.C12')],
 }
 def names(path):
     s = open(path, encoding='utf-8').read()
